@@ -97,7 +97,7 @@ def showTrace (tr : List Ev) : String :=
     | _ => none
   "ran=" ++ "_".intercalate ran ++ " warn=" ++ "_".intercalate warn
 
-def runHistory (d : Defects) (n : Nat) (rules : Nat → List Nat) (ops : List UserOp) : List String :=
+def runHistory (d : Defects) (n : Nat) (rules : Nat → List Nat) (ops : List UserOp) (rev : Bool := false) : List String :=
   let rec go : List UserOp → World → List String → List String
     | [], _, acc => acc.reverse
     | op :: ops, w, acc =>
@@ -107,7 +107,7 @@ def runHistory (d : Defects) (n : Nat) (rules : Nat → List Nat) (ops : List Us
         | some r => "rv=" ++ toString r.status ++ " list=" ++ showNats r.listing ++ " " ++ showTrace w.trace ++ " " ++ snapshot w n
         | none => snapshot w n
       go ops w (line :: acc)
-  go ops (initWorld rules) []
+  go ops { initWorld rules with oobRev := rev } []
 
 def respond (dbits : String) (n : String) (rules : String) (ops : String) : String :=
   let bits := dbits.toList
@@ -116,7 +116,7 @@ def respond (dbits : String) (n : String) (rules : String) (ops : String) : Stri
       failedTargetAbortsRun := bits.getD 1 '0' == '1'
       oobRecordsDepsOnCaller := bits.getD 2 '0' == '1' }
   match n.toNat?, parseRules rules, (ops.splitOn ";").mapM parseOp with
-  | some n, some rules, some ops => " | ".intercalate (runHistory d n rules ops)
+  | some n, some rules, some ops => " | ".intercalate (runHistory d n rules ops (bits.getD 3 '0' == '1'))
   | _, _, _ => "bad-op"
 
 end RedoModel.DepsWire
